@@ -14,7 +14,7 @@ from ..common import Result, sut, digest
 getcontext().prec = 50
 
 ID = "C19"
-RULE = ("parameter points: exponential a in (0.01,5], poisson mean in (0.05,30] (k<=120), power law alpha in [2,6], "
+RULE = ("parameter points: exponential a in (0.01,5], poisson mean in (0.05,30] (k<=120), power law alpha in [2,14] (float and int typed), "
         "cut-off power law alpha in [2,6] x kappa in [0.02,500] (log-uniform; kappa below 1/ln(1e6), where even the first series term is below 1e-6, included); grids (incl. alpha=2, large kappa) + seeded random; plus call histories: 4..8 callables created up front with near-equal, integer and repeated "
         "parameters and evaluated interleaved; "
         "one case = one parameter point evaluated over its whole summed support; every point is non-trivial; "
@@ -33,14 +33,15 @@ def gen_cases(tier, seed):
     rng = random.Random(seed * 7919 + 19)
     n = 50 if tier == "quick" else 1250
     cases = []
-    for a in [0.01 + 1e-9, 0.05, 0.5, 1.0, 2.0, 5.0] + [rng.uniform(0.01, 5) for _ in range(n - 6)]:
+    for a in [0.01 + 1e-9, 0.05, 0.5, 1.0, 2.0, 5.0, 1, 2, 5] + [rng.uniform(0.01, 5) for _ in range(n - 9)]:
         cases.append({"dist": "exponential", "params": [a]})
-    for m in [0.05 + 1e-9, 0.5, 1.0, 2.0, 7.3, 30.0] + [rng.uniform(0.05, 30) for _ in range(n - 6)]:
+    for m in [0.05 + 1e-9, 0.5, 1.0, 2.0, 7.3, 30.0, 1, 2, 7, 30] + [rng.uniform(0.05, 30) for _ in range(n - 10)]:
         cases.append({"dist": "poisson", "params": [m]})
-    for al in [2.0, 2.0 + 1e-9, 2.5, 3.0, 4.0, 6.0] + [rng.uniform(2, 6) for _ in range(n - 6)]:
+    for al in [2.0, 2.0 + 1e-9, 2.5, 3.0, 4.0, 6.0, 2, 3, 5, 8, 9, 12, 14, 8.0, 13.5] + [rng.uniform(2, 6) for _ in range(n - 20)] + [rng.uniform(6, 14) for _ in range(5)]:
         cases.append({"dist": "power_law", "params": [al], "_cost": 3})
     grid = [(2.0, 500.0), (2.0, 0.5), (6.0, 500.0), (3.0, 10.0), (2.5, 100.0), (2.0, 50.0), (2.0, 0.03), (4.0, 0.07), (3.0, 0.073), (2.5, 0.2)]
-    for al, ka in grid + [(rng.uniform(2, 6), math.exp(rng.uniform(math.log(0.02), math.log(500)))) for _ in range(n - 10)]:
+    grid += [(2, 5), (3, 50), (8, 10), (12, 2.5), (9, 100)]       # integer-typed parameters are parameters too
+    for al, ka in grid + [(rng.uniform(2, 6), math.exp(rng.uniform(math.log(0.02), math.log(500)))) for _ in range(n - 18)] + [(rng.uniform(6, 14), math.exp(rng.uniform(math.log(0.02), math.log(500)))) for _ in range(3)]:
         cases.append({"dist": "scale_free_cut_off", "params": [al, ka], "_cost": 3})
     # call histories: many callables created up front (near-equal parameters, ints, repeats), evaluated interleaved
     nh = 8 if tier == "quick" else 200
